@@ -4,6 +4,7 @@ import FimVerif.Proofs.Lemmas.StoreClone
 import FimVerif.Proofs.Lemmas.StoreDisjointClone
 import FimVerif.Proofs.Lemmas.StoreHomed
 import FimVerif.Proofs.Lemmas.StoreFrameGen
+import FimVerif.Model.ImportEntry
 /-!
 # C04 — graphs sharing the in-memory store are isolated; clones are independent
 
@@ -490,5 +491,38 @@ theorem dclone_independent (d : DStore.DStore) (g g2 : String) (hne : g ≠ g2) 
     have := dframe (.clone g g2) d g hne rfl
     simp only [DStore.step] at this
     rw [this]
+
+/-! ## the importer entry points above the store -/
+
+/-- what `gen/importids.py` observes of the importer entry points of both in-memory importers — a document handed over with
+    a graph id is filed under that id; a direct import under the id the DOCUMENT names, also when the same path is loaded,
+    overwritten with a document of another graph and loaded again; a call without a graph id under an id of its own — is
+    what the lowering of entry-point calls to store operations (`ImportEntry.target`) assumes -/
+theorem import_targets_are_modelled :
+    Gen.ImportIds.namedTarget = ImportEntry.modelNamed ∧ Gen.ImportIds.documentTarget = ImportEntry.modelDocument ∧
+    Gen.ImportIds.idlessFresh = ImportEntry.modelIdless := by decide
+
+/-- **frame for imports through the entry points.**  A document handed to an entry point — with a graph id, without one
+    (library-generated id `fresh`) or through a direct entry point (the id `docId` the document names), any document, any
+    reachable-or-not store satisfying the invariant — changes no graph but the one `ImportEntry.target` names: what a path or an
+    earlier call held plays no part. -/
+theorem import_entry_frame (a : ImportEntry.Addressing) (docId fresh : String) (ig : IGraph) (s : Store) (g' : String)
+    (h : Store.Inv s) (hne : g' ≠ ImportEntry.target a docId fresh) :
+    nodesOf (Store.step (.addGraph (ImportEntry.target a docId fresh) ig) s).2 g' = nodesOf s g' ∧
+    edgesOf (Store.step (.addGraph (ImportEntry.target a docId fresh) ig) s).2 g' = edgesOf s g' :=
+  frame_general _ s g' h (by simpa [Op.affects, Op.gidWrites, Op.target] using hne)
+
+/-- … and the direct entry points, whose documents carry the graph id on every node (`keepsGraphId`: all nodes name `docId`,
+    which is what `get_graph_id` insists on): the target is the document's id, every other graph is untouched -/
+theorem direct_import_entry_frame (docId fresh : String) (ig : IGraph) (s : Store) (g' : String) (h : Store.Inv s)
+    (hdoc : (Op.addGraphDirect (ImportEntry.target .document docId fresh) ig).keepsGraphId = true)
+    (hne : g' ≠ ImportEntry.target .document docId fresh) :
+    nodesOf (Store.step (.addGraphDirect (ImportEntry.target .document docId fresh) ig) s).2 g' = nodesOf s g' ∧
+    edgesOf (Store.step (.addGraphDirect (ImportEntry.target .document docId fresh) ig) s).2 g' = edgesOf s g' :=
+  frame_general _ s g' h (affects_of_keepsGraphId _ g' hdoc hne)
+
+-- non-vacuity: a document of two nodes naming graph "b", loaded while graph "a" is in the store
+example : (Op.addGraphDirect (ImportEntry.target .document "b" "u") ⟨[[("NodeID", .str "n1"), ("GraphID", .str "b")],
+    [("NodeID", .str "n2"), ("GraphID", .str "b")]], []⟩).keepsGraphId = true ∧ "a" ≠ ImportEntry.target .document "b" "u" := by decide
 
 end FimVerif.C04
